@@ -23,10 +23,14 @@ import (
 // ---------------------------------------------------------------------------
 
 type WorldSpec struct {
-	Bitmaps []BitmapSpec `json:"bitmaps"`
-	Keys    []KeySpec    `json:"keys"`
-	Masks   []int32      `json:"masks"` // bmtree level masks (bitmapSize), height <= 9
-	Joins   []JoinSpec   `json:"joins"`
+	// HugeKeys > 0: one additional ascending key list of that many 8-byte keys
+	// (beyond the sizes at which an implementation might switch strategy, e.g.
+	// split the work over GOMAXPROCS workers); only the sigbits functions run on it.
+	HugeKeys int          `json:"huge_keys,omitempty"`
+	Bitmaps  []BitmapSpec `json:"bitmaps"`
+	Keys     []KeySpec    `json:"keys"`
+	Masks    []int32      `json:"masks"` // bmtree level masks (bitmapSize), height <= 9
+	Joins    []JoinSpec   `json:"joins"`
 }
 
 type BitmapSpec struct {
@@ -89,6 +93,7 @@ type wJoin struct {
 }
 
 type world struct {
+	huge    []string // the huge key list (nil if none); on the Go heap in both flavours
 	bitmaps []*wBitmap
 	keys    []*wKeys
 	masks   []*wMask
@@ -107,6 +112,9 @@ func genWorldSpec(r *engine.PRNG) WorldSpec {
 			b.NWords = r.PickInt(1023, 1024, 1025, 2500) // beyond 2^16 bits
 		}
 		w.Bitmaps = append(w.Bitmaps, b)
+	}
+	if r.Chance(1, 400) {
+		w.HugeKeys = r.PickInt(1<<18, 1<<18+1, 300000)
 	}
 	nk := 2 + r.Intn(3)
 	for i := 0; i < nk; i++ {
@@ -399,6 +407,19 @@ func buildWorld(spec WorldSpec) *world {
 		j := &wJoin{width: int32(js.Width), n: int32(js.N), subs: a.u64s(subs)}
 		j.words = a.u64s(ownJoin(j.subs, js.Width))
 		w.joins = append(w.joins, j)
+	}
+	if spec.HugeKeys > 0 {
+		w.huge = make([]string, spec.HugeKeys)
+		buf := make([]byte, 8*spec.HugeKeys)
+		v := uint64(0x0101010101010101)
+		for i := range w.huge {
+			v += 1 + engine.H(uint64(spec.HugeKeys), uint64(i))%1000
+			b := buf[8*i : 8*i+8]
+			for j := 0; j < 8; j++ {
+				b[j] = byte(v >> uint(56-8*j))
+			}
+			w.huge[i] = string(b)
+		}
 	}
 	a.seal()
 	return w
